@@ -354,7 +354,29 @@ class _O:
         self.__dict__.update(kw)
 
 
-FUNCS = {"sched_search": sched_search, "layout": layout, "invalid_rejected": invalid_rejected, "query": query, "search": search}
+def accepts_minimal(V, accel, kind, bits, lut):
+    """liveness of the validity check (the `layout` lemma lets try_block_config reject anything): the smallest legal block - one micro-block - is
+    accepted for every operation kind, data width and IFM depth; a check that rejected everything would leave the scheduler without any
+    configuration"""
+    import ethosu.vela.architecture_allocator as aa
+    from ethosu.vela.architecture_features import Block
+    from ethosu.vela.operation import Kernel, NpuBlockType
+    from ethosu.vela.ethos_u55_regs.ethos_u55_regs import resampling_mode
+    from harness.c04 import arch_for
+
+    arch = arch_for(accel)
+    (uw, uh, ud), _, banks, gran = HW[accel]
+    ifm_d = V.int("ifm_depth", 1, 4096)
+    bt = {"conv": NpuBlockType.ConvolutionMxN, "dw": NpuBlockType.ConvolutionDepthWise, "pool": NpuBlockType.Pooling, "ew": NpuBlockType.ElementWise}[kind]
+    shp = Block(64, 64, ifm_d)
+    with core.shims(*_shims()):
+        cfg = aa.try_block_config(Block(uw, uh, ud), arch, bt, Block(64, 64, 64), shp, shp if kind == "ew" else None, False, bits, False,
+                                  Kernel(1, 1) if kind in ("ew", "pool") else Kernel(3, 3), 2 if lut else 0, True, resampling_mode.NONE)
+    rat.exactness_obligations()
+    return [("one micro-block is accepted", cfg is not None)]
+
+
+FUNCS = {"accepts_minimal": accepts_minimal, "sched_search": sched_search, "layout": layout, "invalid_rejected": invalid_rejected, "query": query, "search": search}
 
 
 def instances(tier, seed):
@@ -401,6 +423,10 @@ def instances(tier, seed):
             out.append(dict(key="layout/%s/%s%d/b%dx%d/k%dx%dd%d/s%dx%s/l%d_sc%d_u%d_p%d" % (c["accel"], c["kind"], c["bits"], c["bh"], c["bw"], c["kh"], c["kw"],
                                                                                          c["dil"], c["stride"], c.get("stride_y", c["stride"]), c["lut"], c["scalar"], c["upscale"], c["partk"]),
                             fn="layout", params=c))
+        for kind in ("conv", "dw", "pool", "ew"):
+            for bits in (8, 16):
+                for lut in (0, 1):
+                    out.append(dict(key="accepts_minimal/%s/%s%d/lut%d" % (accel, kind, bits, lut), fn="accepts_minimal", params=dict(accel=accel, kind=kind, bits=bits, lut=lut)))
         for kind in ("conv", "dw", "pool", "ew"):
             for lut in (0, 1):
                 for (oh, ow, od) in ((1, 32, 64), (16, 16, 32), (8, 64, 16)):
